@@ -481,6 +481,34 @@ pub fn cmd_cases(seed: u64, random_count: usize) -> Vec<Case> {
                 adds(p);
             }
         }
+        // the same ranges inside the COMPRESSED form (gzip + base64 of JSON), built by the real encoder from the plain message
+        for rg in ranges.iter() {
+            for tagged in [false, true] {
+                let mut plain: Vec<String> = vec!["v2".into(), "9".into(), "FORCE".into(), "db".into(), "127.0.0.1:7001".into()];
+                if tagged {
+                    plain.extend(["MIGRATING".to_string(), "1".into(), rg.clone(), "5".into()]);
+                    plain.extend(addrs.iter().map(|a| a.to_string()));
+                } else {
+                    plain.extend(["1".to_string(), rg.clone()]);
+                }
+                let mut it = plain.into_iter().peekable();
+                if let Ok(Ok((m, _))) = std::panic::catch_unwind(std::panic::AssertUnwindSafe(|| undermoon::common::proto::ProxyClusterMeta::parse(&mut it))) {
+                    let mc = undermoon::common::proto::ProxyClusterMeta::new(
+                        m.get_epoch(),
+                        undermoon::common::proto::ClusterMapFlags { force: true, compress: true },
+                        m.get_cluster_name().clone(),
+                        m.get_local().clone(),
+                        m.get_peer().clone(),
+                        m.get_config().clone(),
+                    );
+                    if let Ok(cargs) = mc.to_compressed_args() {
+                        let mut p = vec![b("UMCTL"), b("SETCLUSTER")];
+                        p.extend(cargs.iter().map(|a| b(a)));
+                        adds(p);
+                    }
+                }
+            }
+        }
         // counts and epochs inside otherwise well-formed messages
         adds(vec![b("UMCTL"), b("SETCLUSTER"), b("v2"), b("9"), b("FORCE"), b("db"), b("127.0.0.1:7001"), x.to_vec(), b("0-100"), b("200-300")]);
         adds(vec![b("UMCTL"), b("SETCLUSTER"), b("v2"), b("9"), b("FORCE"), b("db"), b("127.0.0.1:7001"), b("MIGRATING"), b("1"), b("0-100"), x.to_vec(),
